@@ -22,6 +22,15 @@ pub fn iff_ops() -> Vec<(OpK, Vec<Vec<usize>>)> {
     for op in [OpK::Add, OpK::Mul, OpK::Div] {
         out.push((op.clone(), vec![m23.clone(), v3.clone()]));
     }
+    // a single-element operand on either side, of lower, equal and higher rank than the other operand
+    for op in [OpK::Add, OpK::Sub, OpK::Mul, OpK::Div, OpK::Axpy(-2.0)] {
+        for one in [vec![1usize], vec![1, 1], vec![1, 1, 1]] {
+            for other in [v3.clone(), m23.clone(), vec![1usize]] {
+                out.push((op.clone(), vec![other.clone(), one.clone()]));
+                out.push((op.clone(), vec![one.clone(), other.clone()]));
+            }
+        }
+    }
     for op in [
         OpK::Neg,
         OpK::Scale(3.0),
